@@ -363,6 +363,21 @@ def check(ctx):
     n_walks = check_meta_walks(ctx, r4, lambda fid: "::validator_parser::ValidatorParser::" in fid, "#[validate(..)]")
     if not n_walks:
         r4.bad(V(r4.id, "<anchor>", "missing:validate-meta-walk", "anchor not found: no parse_nested_meta walk in ValidatorParser"))
+    # a range bound is a decimal number of any size: it is read as f64 from the literal's digits.  Reading it through an integer type first
+    # (`base10_parse::<i64>()` … `as f64`) silently drops bounds that do not fit (u64::MAX, i64::MIN, u128 ids)
+    n_cast = 0
+    for fid_ in sorted(P.fns):
+        if not fid_.startswith("tauri_typegen::analysis::validator_parser::") or "{promoted#" in fid_:
+            continue
+        g_ = P.fns[fid_]
+        n_cast += 1
+        for b_ in sorted(g_.reach_blocks):
+            for st_ in g_.blocks[b_]["stmts"]:
+                rv_ = st_.get("rv") or {}
+                if rv_.get("k") == "cast" and rv_.get("cast") == "IntToFloat":
+                    r4.bad(V(r4.id, fid_, "bound-through-integer", "%s converts an integer to f64: a bound read through an integer type is lost when the literal does not fit that type"
+                             % short_path(fid_), g_.file, st_.get("line")))
+    r4.ok("%d validator-parser bodies: no bound goes through an integer type" % n_cast)
     r4.require_floor(5, "parsing functions + item walks")
     rules.append(r4)
 
